@@ -739,3 +739,12 @@ func init() {
 	nontrivialRule["C20"] = "queries were compared in a state with at least one delegation or with an unbonding bucket holding several entries"
 	expectedProbes["C20"] = []string{"c20_bucket_with_several_entries", "c20_balance_plus_one_accepted"}
 }
+
+func init() {
+	monitorRegistry["C04"] = func(s *Schedule) []Monitor { return []Monitor{newMonC04()} }
+	monitorRegistry["C05"] = func(s *Schedule) []Monitor { return []Monitor{newMonC05()} }
+	nontrivialRule["C04"] = "at least one successful delegate/undelegate/redelegate/claim was checked against every position of its asset"
+	nontrivialRule["C05"] = "the probes ran in a state with at least one position, after a slash, or with a jailed validator"
+	expectedProbes["C04"] = []string{"c04_extreme_share_token_ratio", "c04_dust_against_huge_total"}
+	expectedProbes["C05"] = []string{"c05_after_slash", "c05_with_jailed_validator"}
+}
